@@ -139,7 +139,7 @@ Lemma rawcall_legacy_zero : forall k R hg (hv : bool) c cr y s buf,
   = raw_call_w k 0 R c (y_to y) (match k with KCall => if hv then y_value y else 0 | _ => 0 end) (bytes_at (s_mem s) (y_data y)) (s_world s).
 Proof.
   intros k R hg hv c cr y s buf [Hd1 Hd2].
-  unfold gen_rawcall_legacy. change (0 =? 0) with true. cbv iota.
+  unfold gen_rawcall_legacy. rewrite ?eqb00.
   destruct k, R, hg, hv; unfold ev_top, ev1, sym, propagate, call_node, raw_call_w; ev_cbn; fin y buf.
   all: unfold observe; cbn [Z.ltb Z.compare]; f_equal.
 Qed.
@@ -174,7 +174,7 @@ Lemma rawcall_venom_zero : forall k R (hg : bool) glit vlit c cr y s fp tg,
   = raw_call_w k 0 R c (y_to y) (match k with KCall => vlit | _ => 0 end) (bytes_at (s_mem s) (y_data y)) (s_world s).
 Proof.
   intros k R hg glit vlit c cr y s fp tg [Hd1 Hd2].
-  unfold gen_rawcall_venom. change (0 =? 0) with true. cbv iota.
+  unfold gen_rawcall_venom. rewrite ?eqb00.
   destruct k, R, hg; unfold run_vsite, sym, raw_call_w, kind_op; ev_cbn2; finv y.
   all: unfold observe; cbn [Z.ltb Z.compare]; f_equal.
 Qed.
